@@ -113,15 +113,28 @@ def _small_case(args):
                     r1 = _call(dsm.downsample_grid, a, b, samples, rem, True)
                     out += check_result("downsample_grid", a, b, samples,
                                         rem, r1, case)
-                    # second call: cached; third: cache cleared
+                    # second call: cached; third: cache cleared.  What the
+                    # first caller does with its arrays is its own business
+                    keep1 = None
+                    if not isinstance(r1, BaseException):
+                        keep1 = [np.array(x, copy=True) for x in r1]
+                        for x in r1:
+                            if isinstance(x, np.ndarray) and x.size \
+                                    and x.flags.writeable:
+                                x[...] = ~x if x.dtype == bool else x * 0 - 7
+                        r1 = tuple(keep1)
                     r2 = _call(dsm.downsample_grid, a, b, samples, rem, True)
-                    Cache._cache.clear()
-                    del Cache._keys[:]
+                    try:        # fast; clear_cache() collects garbage
+                        Cache._cache.clear()
+                        del Cache._keys[:]
+                    except AttributeError:
+                        Cache.clear_cache()
                     r3 = _call(dsm.downsample_grid, a, b, samples, rem, True)
                     if not isinstance(r1, BaseException):
                         for rr in (r2, r3):
-                            if isinstance(rr, BaseException) or not \
-                                    np.array_equal(r1[2], rr[2]):
+                            if isinstance(rr, BaseException) or not all(
+                                    np.array_equal(u, w, equal_nan=True)
+                                    for u, w in zip(r1, rr)):
                                 out.append(violation(
                                     "dclab.downsampling:downsample_grid",
                                     "not-reproducible", case,
